@@ -27,6 +27,15 @@ Definition all_in (p : N -> bool) (s : str) : Prop := Forall (fun c => p c = tru
 Definition fits255 (s : str) : Prop := (List.length s <= 255)%nat.
 Definition fits255_b (s : str) : bool := (List.length s <=? 255)%nat.
 
+(** [strip c s]: [s] without its first byte if that is [c]; [strip_pre p s]: [s] without the prefix [p]. *)
+Definition strip (c : N) (s : str) : option str :=
+  match s with x :: r => if x =? c then Some r else None | [] => None end.
+Fixpoint strip_pre (p s : str) : option str :=
+  match p with
+  | [] => Some s
+  | c :: p' => match strip c s with Some r => strip_pre p' r | None => None end
+  end.
+
 (** Fields of a string separated by [c], and the inverse. *)
 Fixpoint split_on (c : N) (s : str) : list str :=
   match s with
@@ -45,6 +54,10 @@ Fixpoint join (c : N) (fs : list str) : str :=
   | [f] => f
   | f :: r => f ++ c :: join c r
   end.
+
+(** Every way of cutting [s] in two. *)
+Definition cuts (s : str) : list (str * str) :=
+  List.map (fun i => (firstn i s, skipn i s)) (seq 0 (S (List.length s))).
 
 (** * IPv4address = dec-octet "." dec-octet "." dec-octet "." dec-octet   (RFC 3986 3.2.2) *)
 Inductive DecOctet : str -> Prop :=
@@ -129,15 +142,15 @@ Definition side_b (f : str -> option nat) (s : str) : option nat :=
 
 Definition ipv6_b (s : str) : bool :=
   (match pieces_b s with Some 8%nat => true | _ => false end)
-  || existsb (fun i =>
-       match skipn i s with
-       | 58 :: 58 :: t =>
-           match side_b h16seq_b (firstn i s), side_b pieces_b t with
+  || existsb (fun '(h, r) =>
+       match strip_pre [58; 58] r with
+       | Some t =>
+           match side_b h16seq_b h, side_b pieces_b t with
            | Some nh, Some nt => (nh + nt <=? 7)%nat
            | _, _ => false
            end
-       | _ => false
-       end) (seq 0 (List.length s)).
+       | None => false
+       end) (cuts s).
 
 (** * Server name = hostname [ ":" port ] *)
 Definition dns_char (c : N) : bool := ALPHA c || DIGIT c || (c =? 45) || (c =? 46).
@@ -160,19 +173,18 @@ Inductive ServerName (bound : bool) : str -> Prop :=
 | SN_port h p : Hostname bound h -> Port p -> ServerName bound (h ++ 58 :: p).
 
 Definition bracketed_b (h : str) : bool :=
-  match h with
-  | 91 :: r => match rev r with 93 :: a' => ipv6_b (rev a') | _ => false end
-  | _ => false
+  match strip 91 h with
+  | Some r => match strip 93 (rev r) with Some a' => ipv6_b (rev a') | None => false end
+  | None => false
   end.
 Definition hostname_b (bound : bool) (h : str) : bool := ipv4_b h || bracketed_b h || dns_name_b bound h.
 
-(** Every way of cutting [s] in two. *)
-Definition cuts (s : str) : list (str * str) :=
-  List.map (fun i => (firstn i s, skipn i s)) (seq 0 (S (List.length s))).
-
 Definition server_name_b (bound : bool) (s : str) : bool :=
   existsb (fun '(h, r) =>
-    match r with [] => hostname_b bound h | 58 :: p => port_b p && hostname_b bound h | _ => false end) (cuts s).
+    match r with
+    | [] => hostname_b bound h
+    | _ => match strip 58 r with Some p => port_b p && hostname_b bound h | None => false end
+    end) (cuts s).
 
 (** The two classes of the open known findings. *)
 (** ruma parses the port as a [u16] ([ServerName::port()] returns one): ports 65536-99999 are in the
@@ -180,7 +192,7 @@ Definition server_name_b (bound : bool) (s : str) : bool :=
 Definition PortAbove65535 (sn : str) : Prop :=
   exists h p, sn = h ++ 58 :: p /\ Port p /\ 65535 < port_value p.
 Definition port_above_b (sn : str) : bool :=
-  existsb (fun '(h, r) => match r with 58 :: p => port_b p && (65535 <? port_value p) | _ => false end) (cuts sn).
+  existsb (fun '(h, r) => match strip 58 r with Some p => port_b p && (65535 <? port_value p) | None => false end) (cuts sn).
 (** ruma does not bound the length of the dns-name of a bare server name. *)
 Definition DnsLonger255 (sn : str) : Prop :=
   exists h r, sn = h ++ r /\ all_in dns_char h /\ (255 < List.length h)%nat.
@@ -198,7 +210,7 @@ Definition local_server_id_b (bound : bool) (sigil : N) (s : str) : bool :=
   match s with
   | x :: r =>
       (x =? sigil) && fits255_b s &&
-      existsb (fun '(l, t) => match t with 58 :: sn => local_ok l && server_name_b bound sn | _ => false end) (cuts r)
+      existsb (fun '(l, t) => match strip 58 t with Some sn => local_ok l && server_name_b bound sn | None => false end) (cuts r)
   | [] => false
   end.
 
@@ -222,21 +234,21 @@ Inductive UserIdStrict (bound : bool) : str -> Prop :=
     l <> [] -> all_in strict_char l -> ServerName bound sn -> fits255 (64 :: l ++ 58 :: sn) ->
     UserIdStrict bound (64 :: l ++ 58 :: sn).
 Definition user_id_strict_b (bound : bool) (s : str) : bool :=
-  match s with
-  | 64 :: r =>
+  match strip 64 s with
+  | Some r =>
       fits255_b s &&
-      existsb (fun '(l, t) => match t with
-                              | 58 :: sn => nonempty l && forallb strict_char l && server_name_b bound sn
-                              | _ => false
+      existsb (fun '(l, t) => match strip 58 t with
+                              | Some sn => nonempty l && forallb strict_char l && server_name_b bound sn
+                              | None => false
                               end) (cuts r)
-  | _ => false
+  | None => false
   end.
 
 (** Room ids: "!" opaque — only sigil, length and NUL are checked (room version 12 aware). *)
 Definition no_nul (s : str) : bool := forallb (fun c => negb (c =? 0)) s.
 Definition RoomId (s : str) : Prop := exists r, s = 33 :: r /\ no_nul r = true /\ fits255 s.
 Definition room_id_b (s : str) : bool :=
-  match s with 33 :: r => no_nul r && fits255_b s | _ => false end.
+  match strip 33 s with Some r => no_nul r && fits255_b s | None => false end.
 
 Definition RoomOrAliasId (bound : bool) (s : str) : Prop := RoomId s \/ RoomAliasId bound s.
 Definition room_or_alias_id_b (bound : bool) (s : str) : bool := room_id_b s || room_alias_id_b bound s.
@@ -246,9 +258,9 @@ Inductive EventId (bound : bool) : str -> Prop :=
 | EI_opaque r : local_ok r = true -> fits255 (36 :: r) -> EventId bound (36 :: r)
 | EI_server s : LocalServerId bound 36 s -> EventId bound s.
 Definition event_id_b (bound : bool) (s : str) : bool :=
-  match s with
-  | 36 :: r => (local_ok r && fits255_b s) || local_server_id_b bound 36 s
-  | _ => false
+  match strip 36 s with
+  | Some r => (local_ok r && fits255_b s) || local_server_id_b bound 36 s
+  | None => false
   end.
 
 (** Key ids: algorithm ":" key name. *)
@@ -265,7 +277,7 @@ Definition no_colon (a : str) : bool := forallb (fun c => negb (c =? 58)) a.
 Inductive KeyId (k : key_kind) : str -> Prop :=
 | KI a n : a <> [] -> no_colon a = true -> key_name_b k n = true -> KeyId k (a ++ 58 :: n).
 Definition key_id_b (k : key_kind) (s : str) : bool :=
-  existsb (fun '(a, t) => match t with 58 :: n => nonempty a && no_colon a && key_name_b k n | _ => false end) (cuts s).
+  existsb (fun '(a, t) => match strip 58 t with Some n => nonempty a && no_colon a && key_name_b k n | None => false end) (cuts s).
 
 (** MXC URIs: "mxc://" server_name "/" media_id, media_id = 1*( ALPHA / DIGIT / "-" / "_" ). *)
 Definition media_char (c : N) : bool := ALPHA c || DIGIT c || (c =? 45) || (c =? 95).
@@ -273,13 +285,13 @@ Inductive MxcUri (bound : bool) : str -> Prop :=
 | MX sn m : ServerName bound sn -> m <> [] -> all_in media_char m ->
     MxcUri bound (s!"mxc://" ++ sn ++ 47 :: m).
 Definition mxc_uri_b (bound : bool) (s : str) : bool :=
-  match s with
-  | 109 :: 120 :: 99 :: 58 :: 47 :: 47 :: r =>
-      existsb (fun '(sn, t) => match t with
-                               | 47 :: m => nonempty m && forallb media_char m && server_name_b bound sn
-                               | _ => false
+  match strip_pre s!"mxc://" s with
+  | Some r =>
+      existsb (fun '(sn, t) => match strip 47 t with
+                               | Some m => nonempty m && forallb media_char m && server_name_b bound sn
+                               | None => false
                                end) (cuts r)
-  | _ => false
+  | None => false
   end.
 
 (** Room versions: 1-32 code points of [A-Za-z0-9.-] (ASCII, so code points = bytes); the grammar
@@ -307,10 +319,11 @@ Definition server_parts_b (s host : str) (port : option N) : bool :=
   match port with
   | None => str_eqb s host
   | Some v =>
-      existsb (fun '(h, r) => match r with
-                              | 58 :: p => port_b p && (port_value p =? v) && str_eqb h host
-                              | _ => false
+      existsb (fun '(h, r) => match strip 58 r with
+                              | Some p => port_b p && (port_value p =? v) && str_eqb h host
+                              | None => false
                               end) (cuts s)
   end.
 (** A server name is an IP literal iff its host is an IPv4 address or a bracketed literal. *)
-Definition ip_literal_b (host : str) : bool := ipv4_b host || match host with 91 :: _ => true | _ => false end.
+Definition ip_literal_b (host : str) : bool :=
+  ipv4_b host || match strip 91 host with Some _ => true | None => false end.
